@@ -10,11 +10,14 @@ os.environ["VERIF_NO_ASTNORM"] = "1"
 import extract
 from ir import Facts
 paths = set()
+consts = set()
 for cfg in ("default", "mwhc"):
     p, inf = extract.get_facts(cfg, src_root="/repo")
     F = Facts(p)
     for b in F.bodies:
         if b.dk in ("Fn", "AssocFn"):
             paths.add(b.path)
-json.dump({"_comment": "function paths of the reference tree; see tools/gen_known_fns.py", "paths": sorted(paths)}, open(os.path.join(VERIF, "tables", "known_fns.json"), "w"), indent=0)
-print(len(paths), "functions")
+        elif b.dk in ("Const", "AssocConst", "Static"):
+            consts.add(b.path)
+json.dump({"_comment": "function and constant paths of the reference tree; see tools/gen_known_fns.py", "paths": sorted(paths), "consts": sorted(consts)}, open(os.path.join(VERIF, "tables", "known_fns.json"), "w"), indent=0)
+print(len(paths), "functions", len(consts), "constants")
